@@ -41,7 +41,7 @@ ASSUMPTIONS = [
     'pandas / sqlite3 internals are trusted to report their own state (DataFrame.equals, total_changes)',
 ]
 
-HOSTILE = ['t;DROP/**/TABLE/**/ta;--', '"ta"', 'ta)', 'main.ta', '[ta]', 'ta--', 'taé', 'sqlite_master', '', 'ta;', "ta'", 'ta/**/', 'tb,ta', 'TA', 'ta_1', 'ta x', 'nosuch']
+HOSTILE = ['ta\n', 'tb\n', 't;DROP/**/TABLE/**/ta;--', '"ta"', 'ta)', 'main.ta', '[ta]', 'ta--', 'taé', 'sqlite_master', '', 'ta;', "ta'", 'ta/**/', 'tb,ta', 'TA', 'ta_1', 'ta x', 'nosuch']
 
 QUERIES = [
     ('select', 'select *'),
@@ -310,12 +310,12 @@ class World(object):
                     self.writable_source_opens += 1
         hostile = None
         f = op.get('fault') if isinstance(op, dict) else None
-        if f and f.get('ident') and re.match(r'^[A-Za-z0-9_]*$', f['ident']) is None:
+        if f and f.get('ident') and re.fullmatch(r'[A-Za-z0-9_]*', f['ident']) is None:
             hostile = f['ident']
         for st in self.statements[self.statements_checked:]:
             m = re.match(r'^SELECT \* FROM (.*);$', st, re.S)
             if m is not None:
-                if re.match(r'^[A-Za-z0-9_]*$', m.group(1)) is None:
+                if re.fullmatch(r'[A-Za-z0-9_]*', m.group(1)) is None:     # fullmatch: '$' would accept a trailing newline
                     return ('sqlite_statement', {'statement': st})
             elif hostile is not None and hostile in st:
                 # whatever the statement is, an identifier with other characters reached sqlite verbatim
